@@ -191,7 +191,8 @@ ValsOf(tag) ==
   IF tag = TagWght THEN {Fx(400), Fx(100), Fx(250), Fx(449), Fx(549) + Half, Fx(550), Fx(649), Fx(650), Fx(680), Fx(700), Fx(1000), Fx(1), Fx(49)}
   ELSE IF tag = TagWdth THEN {Fx(100), Fx(50), Fx(56) + 16384, Fx(62) + Half, Fx(75), Fx(87) + Half, Fx(93) + 49152, Fx(110) + 21845, Fx(125), Fx(175), Fx(200)}
   ELSE IF tag = TagSlnt THEN {Fx(0), Fx(-10), Fx(12), Fx(-11) + Half}
-  ELSE {Fx(12), Fx(8), Fx(14) + 16384, Fx(72), Fx(0) + 6554}
+  \* (14 + 6553 / 65536 = 14.0999908: half a unit of 16.16 short of 14.1 - five decimals; 6554 / 65536: one decimal)
+  ELSE {Fx(12), Fx(8), Fx(14) + 16384, Fx(72), Fx(0) + 6554, Fx(14) + 6553}
 FewOf(tag) ==
   IF tag = TagWght THEN {Fx(400), Fx(700)} ELSE IF tag = TagWdth THEN {Fx(100), Fx(75)}
   ELSE IF tag = TagSlnt THEN {Fx(0), Fx(-10)} ELSE {Fx(12)}
@@ -233,7 +234,9 @@ StatVar(n, axes) ==
                     tabs |-> << F4(0, IdBoldCond, << <<SAx(plain, TagWght), Fx(700)>>, <<SAx(plain, TagWdth), Fx(75)>> >>) >>
                              \o Flat([k \in DOMAIN plain |-> Point(plain[k][1], k - 1)])]
        \* a range with its nominal value off centre next to a single value; an older-sibling table
-       [] n = 5 -> [has |-> 1, ver |-> 1, fb |-> 999, axes |-> plain,
+       \* (elidedFallbackNameID 999 and the name id 998 of the first design axis are not in the name table)
+       [] n = 5 -> [has |-> 1, ver |-> 1, fb |-> 999,
+                    axes |-> [k \in DOMAIN plain |-> IF k = 1 THEN <<plain[k][1], 998, plain[k][3]>> ELSE plain[k]],
                     tabs |-> << F2(SAx(plain, TagWght), 2, IdRegular, Fx(400), Fx(300), Fx(600)),
                                 F1(SAx(plain, TagWght), 0, IdBold, Fx(650)),
                                 F1(SAx(plain, TagWght), 1, IdSib, Fx(100)), F1(SAx(plain, TagWght), 0, IdThin, Fx(100)) >>]
